@@ -174,9 +174,10 @@ check("C19", "model_checking",
       TRUST, "complete enumeration of API style x variant x corpus and of the discovery name alphabet, differential oracle",
       "config-corpus-enumerator + E3-thread-scheduler", "DESIGN.md section 4 C19")
 
-ENGINES.append(dict(name="E3p-preemptive", path="/verif/mc/preempt.py", serves_properties=["C04", "C08", "C14", "C15"],
+ENGINES.append(dict(name="E3p-preemptive", path="/verif/mc/preempt.py", serves_properties=["C04", "C08", "C09", "C14", "C15"],
                     kind_free_text="preemption-bounded stateless exploration of the sync engine's real threads: every producer is a virtual thread (baton passing), scheduling points are blocking calls, shim-lock acquisitions and every source line of whitelisted library functions (sys.settrace); all schedules with <= k preemptions are enumerated by choice prefixes"))
 for _pid, _extra in (("C08", " Plus a sync thread slice: a caller leaving and re-entering the state against its after-timer threads, every line-level interleaving within the preemption bound."),
+                     ("C09", " Plus a sync thread slice: the caller leaving / re-entering the invoking state at the instant its child machine finishes, against the runner and timer threads (deviation-bounded)."),
                      ("C14", " Plus a sync thread slice: stop() against an after-timer thread, a caller thread and a second stop(), every line-level interleaving within the preemption bound."),
                      ("C15", " Plus a sync thread slice: arm / re-arm / cancel of one send id against its delayed-send threads, every line-level interleaving within the preemption bound.")):
     CHECKS[_pid]["level_claimed"]["text"] += _extra
